@@ -123,8 +123,8 @@ PROPS = {
     },
     "C20": {
         "theorems": [],
-        "suites": [{"name": "dualschema", "quick": 1800, "thorough": 40000}],
-        "required_tags": ["dual:negotiate", "dual:respflow", "dual:dispatch", "dual:grpcwrap", "dual:restbind"],
+        "suites": [{"name": "dualschema", "quick": 1800, "thorough": 40000}, {"name": "resolver", "quick": 600, "thorough": 20000}],
+        "required_tags": ["resolver.n:3", "resolver.method:1", "resolver.register:1", "resolver.register:2", "dual:negotiate", "dual:respflow", "dual:dispatch", "dual:grpcwrap", "dual:restbind"],
         "trivial_tags": [],
         "level_text": "wip", "level_note": "wip",
     },
